@@ -59,7 +59,7 @@ def sample_of(job, k=0):
 # kinds and C05 the temporary block source: their checks run the temp driver too and report its overlap / content /
 # block-return guards; C03 runs fallback compositions (try_ functions never throw, never grow); C05 runs the deeply
 # tracked library allocators (every block goes back to the source)
-ALSO_RULES_OF = {"C05": ("C16", "C14/AllFreedAtExit", "C09/UpstreamBlocksReturnedAtEnd"), "C12": ("C01", "C03"),
+ALSO_RULES_OF = {"C05": ("C16", "C14/AllFreedAtExit", "C14/ShrinkRequestReturnsBlocks", "C14/BlocksKeptForReuse", "C09/UpstreamBlocksReturnedAtEnd"), "C12": ("C01", "C03"),
                  "C06": ("C01",), "C07": ("C01",), "C03": ("C01",),
                  "C01": ("C14/TemporaryMemoryDisjoint", "C14/ContentIntactUntilScopeEnds", "C14/NoTwoLiveThreadsShareAStack",
                          "C14/CasResultAsModel", "C14/HeldStackMarkedInUse")}
